@@ -152,8 +152,11 @@ Proof.
   (* split the subscript *)
   set (i1 := firstn isplit i). set (i2 := skipn isplit i).
   assert (Hi12 : i = i1 ++ i2) by (symmetry; apply firstn_skipn).
-  assert (Hs1 : s1 = firstn isplit (kshape K)). { rewrite Hs. rewrite firstn_app. unfold s1 at 2. rewrite map_length, L1, Nat.sub_diag. cbn [firstn]. rewrite app_nil_r. rewrite firstn_all2; auto. unfold s1. rewrite map_length. lia. }
-  assert (Hs2 : s2 = skipn isplit (kshape K)). { rewrite Hs. rewrite skipn_app. unfold s1. rewrite map_length, L1, Nat.sub_diag. cbn [skipn]. rewrite skipn_all2; auto. rewrite map_length. lia. }
+  assert (Ls1 : length s1 = isplit) by (unfold s1; now rewrite map_length).
+  assert (Hs1 : s1 = firstn isplit (kshape K)).
+  { rewrite Hs, <- Ls1. rewrite firstn_app, Nat.sub_diag, firstn_all. cbn [firstn]. now rewrite app_nil_r. }
+  assert (Hs2 : s2 = skipn isplit (kshape K)).
+  { rewrite Hs, <- Ls1. rewrite skipn_app, Nat.sub_diag, skipn_all. reflexivity. }
   destruct (firstn_skipn_inb _ _ isplit Hi) as [Hb1 Hb2]. rewrite <- Hs1 in Hb1. rewrite <- Hs2 in Hb2. fold i1 in Hb1. fold i2 in Hb2.
   pose proof (sub2ind_lt _ _ Hb1) as Lt1. pose proof (sub2ind_lt _ _ Hb2) as Lt2. rewrite <- Ll in Lt1. rewrite <- Rl in Lt2.
   set (a := sub2ind s1 i1) in *. set (b := sub2ind s2 i2) in *.
@@ -161,7 +164,7 @@ Proof.
   { rewrite Hs, Hi12 at 1. rewrite sub2ind_app by (apply inb_length in Hb1; auto). cbn [sub2ind]. fold a b. rewrite Ll. lia. }
   assert (Hab : inb [length L; length Rm] [a; b] = true).
   { cbn [inb]. apply Nat.ltb_lt in Lt1, Lt2. now rewrite Lt1, Lt2. }
-  unfold Dm at 1. unfold matrix_to_dense at 1. rewrite dshape_tabulate. rewrite Hlin, ind2sub_sub2ind by auto.
+  change (dshape Dm) with [length L; length Rm]. rewrite Hlin, ind2sub_sub2ind by auto.
   unfold Dm, matrix_to_dense. rewrite den_tabulate by auto. cbn [nth].
   (* the matrix entry *)
   unfold mget, M, matmul_t, scale_cols.
@@ -190,10 +193,10 @@ Qed.
 Lemma min_split_dims_range s i : min_split_dims s = Some i -> 0 < i < length s.
 Proof.
   unfold min_split_dims. destruct (length s - 1) as [|n] eqn:E; cbn [seq map]; [discriminate|].
-  intros H. inversion H; subst. clear H.
-  pose proof (argmin_from_bound (map (fun i => size (firstn i s) + size (skipn i s)) (seq 2 n)) 1
-     (size (firstn 1 s) + size (skipn 1 s)) 0 ltac:(lia)) as B.
-  rewrite map_length, seq_length in B. lia.
+  intros H. inversion H as [H']. clear H H'. assert (H01 : 0 < 1) by lia.
+  match goal with |- context [argmin_from ?l 1 ?x 0] =>
+    pose proof (argmin_from_bound l 1 x 0 H01) as B; assert (HL : length l = n) by (now rewrite map_length, seq_length) end.
+  lia.
 Qed.
 
 Lemma min_split_dims_some s : 2 <= length s -> exists i, min_split_dims s = Some i.
@@ -209,10 +212,10 @@ Theorem ktensor_full_correct (K : ktensor V) :
 Proof.
   intros Hok HN. unfold ktensor_full_impl.
   assert (HL : length (kshape K) = length (kfactors K)) by (unfold kshape; apply map_length).
-  destruct (min_split_dims_some (kshape K)) as [isp E]; [lia|]. rewrite E.
+  assert (H2 : 2 <= length (kshape K)) by lia. destruct (min_split_dims_some _ H2) as [isp E]. rewrite E.
   apply min_split_dims_range in E. rewrite HL in E.
   destruct (ktensor_full_at_correct K isp Hok E) as (D & E1 & W & Hs & Hd). exists D. repeat (split; auto).
-  apply (dense_ext v0); auto using wf_tabulate. intros i Hi. rewrite Hd. unfold ktensor_full_spec.
+  apply (dense_ext v0); [exact W|apply wf_tabulate|exact Hs|]. intros i Hi. rewrite Hd. unfold ktensor_full_spec.
   rewrite Hs in Hi. now rewrite den_tabulate.
 Qed.
 
